@@ -35,5 +35,5 @@ package decryptor
 //@ func (encryptor *HashQuery) OnBind(ctx context.Context, parseResult *pg_query.ParseResult, values []base.BoundValue) (out []base.BoundValue, changed bool, err error)
 //@   props C09 C14
 //@   noinline *
-//@   loop 0 invariant only-existing-positions: forall(j, 0, len(indexes), 0 <= indexes[j] && indexes[j] < len(values))
+//@   loop 0 step only-existing-positions: len(indexes) != len(prev(indexes)) ==> len(indexes) == len(prev(indexes)) + 1 && 0 <= indexes[len(indexes)-1] && indexes[len(indexes)-1] < len(values)
 //@   at call HashQuery.replaceValuesWithHMACs : assert arg[0] == ctx && sameslice(arg[1], values) && sameslice(arg[2], indexes)
